@@ -22,6 +22,20 @@ Theorem C20_pcm_injective : forall v w,
 Proof. exact pcm_injective. Qed.
 Print Assumptions C20_pcm_injective.
 
+(** The float32 sample is the binary32 number nearest to v/32767: a normal 24-bit
+    float +-m*2^e with |m*2^e - v/32767| < 2^e/2 (stated in Z, scaled by 32767*2^-e),
+    for ALL 65536 values — an integer-only check independent of SFdiv. *)
+Theorem C20_pcm_f32_is_nearest : forall v, I16_MIN <= v <= I16_MAX ->
+  match i16_to_f32 v with
+  | S754_zero _ => v = 0
+  | S754_finite s m e =>
+      2 ^ 23 <= Zpos m < 2 ^ 24 /\ -149 <= e < 0 /\
+      2 * Z.abs ((if s then Zneg m else Zpos m) * I16_MAX - v * 2 ^ (- e)) < I16_MAX
+  | _ => False
+  end.
+Proof. exact pcm_f32_nearest_prop. Qed.
+Print Assumptions C20_pcm_f32_is_nearest.
+
 (** samples_to_wav_data then wav_data_to_samples at the same rate, minus the
     container: a mono 16-bit signal of any length is reproduced exactly, both
     as PCM and as float32 samples. *)
